@@ -5,6 +5,7 @@ From Coq Require Import List ZArith NArith Bool Arith.
 Import ListNotations.
 From V Require Import Model.SnapOps Proofs.SnapOpsFlat Proofs.SnapOpsNested Proofs.SnapOpsRuns.
 From V Require Import Model.TreeAssign Proofs.TreeAssignProofs Proofs.TreeAssignConfluence.
+From V Require Import Model.CallAssign Proofs.CallAssignProofs Proofs.CallAssignConfluence.
 
 Theorem C09_two_runs_compose_flat :
   forall (fixed1 fixed2 : bool) (F1 F2 : flags) (K : kind) (old : option src) 
@@ -84,6 +85,22 @@ Theorem C09_align_ext :
   Forall2 (SameEq A A' B eqb eqb') as_ as' -> Align.align A B eqb as_ bs = Align.align A' B eqb' as' bs.
 Proof. exact align_ext. Qed.
 
+(* constructor calls of dataclass-like values (Model/CallAssign.v): a run with F1 followed by a run with F2 on the call that run wrote
+   leaves the same call - same arguments, same ORDER, same texts - as one run with F1 and F2 together, for all flag sets *)
+Theorem C09_call_two_runs_compose :
+  forall (F1 F2 : flags) (c : call) (fs : list field),
+  managed_call c -> wf_call c fs ->
+  items_call (call_result F2 (items_call (call_result F1 c fs)) fs) = items_call (call_result (funion F1 F2) c fs).
+Proof. exact call_two_runs_compose. Qed.
+
+(* why: inserted keywords are anchored at the last matched keyword before them, not at a position; keywords deleted in between do not matter *)
+Theorem C09_call_result_anchored :
+  forall (F : flags) (c : call) (fs : list field), NoDup (map fst (c_kws c)) ->
+  call_result F c fs =
+    flat_map (assign_pos F) (c_pos c) ++ (if f_fix F then anchored (groups_of c fs) None else [])
+    ++ flat_map (kw_part F fs (groups_of c fs)) (c_kws c).
+Proof. exact call_result_anchored. Qed.
+
 Print Assumptions C09_two_runs_compose_flat.
 Print Assumptions C09_runs_confluent_flat.
 Print Assumptions C09_runs_order_irrelevant_flat.
@@ -94,3 +111,5 @@ Print Assumptions C09_tree_two_runs_compose.
 Print Assumptions C09_tree_fix_update_orders_agree.
 Print Assumptions C09_assign_fix_update_canon.
 Print Assumptions C09_align_ext.
+Print Assumptions C09_call_two_runs_compose.
+Print Assumptions C09_call_result_anchored.
